@@ -208,7 +208,13 @@ func ruleC10Reset(r *Run) {
 					if constructionCopy(st) {
 						continue // a copy of the context carries the same router
 					}
-					if FuncName(root) != "rux.New" {
+					isCtor := false
+					for _, cf := range poolCtorFns(w) {
+						if cf == root || cf == f {
+							isCtor = true
+						}
+					}
+					if FuncName(root) != "rux.New" && !isCtor {
 						okW, where = false, FuncName(f)+" at "+w.Pos(w.InstrPos(st))
 					}
 				}
